@@ -80,6 +80,7 @@ type H struct {
 	dataID  map[string]int               // draft data
 	hashes  []common.Uint256
 	tainted map[int]bool
+	Layout  string // see store.go: position of ordinary outputs in special transactions ("" = random)
 }
 
 func New(f *fixture.Fixture, rng *lib.Rng, id int, mode Mode, st *lib.Stats) *H {
